@@ -470,6 +470,11 @@ class TBRMatchedMarkets:
       # would not be defined).
       return False
 
+    if self.data.geo_index is None:
+      # The geo indices refer to the geos within constraints; make sure that
+      # this index is in place also when no other method has been called yet.
+      _ = self.geo_assignments
+
     if self.parameters.volume_ratio_tolerance is not None:
       volume_ratio = (
           self.data.aggregate_geo_share(control_geos)/
